@@ -42,6 +42,8 @@ DEFS = {
     "zork": dict(line="zork = [zorkiness]", coq='(mkud "zork" None [] 1 1 [("[zorkiness]", mkq 1 1)] true)', keys=["zork"]),
     # a DIFFERENT definition of blip, given to the second registry only (isolation stream)
     "blip_t": dict(line="blip = 5 * second", coq='(mkud "blip" None [] 5 1 [("second", mkq 1 1)] false)', keys=["blip"]),
+    # a new name that gives an OLD spelling an earlier prefixed reading: 'dam' = deca+meter becomes deci+am
+    "am": dict(line="am = 5 * second", coq='(mkud "am" None [] 5 1 [("second", mkq 1 1)] false)', keys=["am"]),
 }
 MAIN_DEFS = ["blip", "smoot", "zork"]
 # contexts the model knows: name -> redefinitions (name, integer scale, reference)
@@ -62,7 +64,8 @@ US_PARSED = ["meter", "m", "km", "kilometer", "yard", "foot", "ft", "inch", "mil
              "dimensionless", ""]
 US_RAW = [s for s in US_PARSED if s != "dimensionless"]
 PARSE_ONLY = ["degC", "degC/hour", "kilodegC", "nosuchunit", "kiloblip", "millikilosmoot"]
-ALL_STRINGS = US_PARSED + PARSE_ONLY
+SHADOW = ["dam"]          # used by the directed shadowing histories only
+ALL_STRINGS = US_PARSED + PARSE_ONLY + SHADOW
 FORMATS = ["", "~", "P", "~P", "C", "D", "H", "L"]
 
 
@@ -367,7 +370,7 @@ class Fresh:
         names = sorted(DEFS)
         for n in range(len(names) + 1):
             for c in itertools.combinations(names, n):
-                if not ("blip" in c and "blip_t" in c):
+                if not ("blip" in c and "blip_t" in c) and ("am" not in c or len(c) == 1):
                     self.server(c)
 
     @staticmethod
@@ -573,6 +576,8 @@ def query_qual(op, klass):
     cl = {klass.get(s, "") for s in strings}
     if "doubly-prefixed" in cl:
         return "[doubly-prefixed]"
+    if "shadowed" in cl:
+        return "[shadowed]"
     if "defined" in cl:
         return "[defined]"
     return ""
@@ -614,7 +619,7 @@ def classify_strings():
                         c = ureg.parse_unit_name(rest) if rest not in ureg._units else ()
                         if c and c[0][0]:
                             cl = "doubly-prefixed"
-            out[s] = cl
+            out[s] = "shadowed" if s in SHADOW else cl
         return out, tk
     finally:
         fr.close()
@@ -838,6 +843,9 @@ def isolation_histories():
                ("other", ("compat", "meter")), ("other", ("setsys", "cgs")), ("other", ("base", "meter", None)), ("base", "meter", None)])
     hs.append([("qnew", "meter"), ("qdim",), ("mkother",), ("other", ("qnew", "second")), ("other", ("qdim",)), ("qdim",),
                ("parse", "kiloinch"), ("other", ("parse", "millikiloinch"))])
+    # a define that gives an old spelling a new reading (F104)
+    for q in [("dim", "dam"), ("base", "dam", None), ("compat", "dam"), ("root", "dam"), ("parse", "dam"), ("convert", "dam", "meter")]:
+        hs.append([q, ("define", "am"), q, ("root", "dam"), ("dim", "dam")])
     return hs
 
 
@@ -1063,7 +1071,9 @@ class Checker:
         t0 = self.trials
         got = self.instantiate(hist, real, fa)
         if got is not None:
-            return got[0], got[1], self.trials - t0, True
+            small = self.minimise(got[0])          # out of its context the candidate may shrink further
+            d = self.discrepancy(small) or got[1]
+            return small, d, self.trials - t0, True
         small = self.minimise(hist)
         d = self.discrepancy(small)
         if d is None:
